@@ -597,7 +597,7 @@ def shapes(tier):
         add(topo=topo, nlayers=1 + (n % 3), layers=lays[(n // 3) % 5], convention=conv, atmos=atm, unit=unit, block_order=order,
             surfaces=surfs[n % 3], surface_above=(n % 7 == 0), wells=wells[(n + conv) % 5], ncentres=(n // 2) % 2,
             centres='free' if n % 5 == 0 else 'mid', symnames=(n % 4 != 1), node_pattern=pn, column_pattern=pc_,
-            gdc=(n % 3 == 0), case='u' if n % 4 == 2 else None, cycles=3 if n % 2 == 0 else 2, reuse=reuse_of(n))
+            gdc=(n % 3 == 0), case='u' if n % 4 == 2 else None, cycles=3 if n % 4 == 0 else 2, reuse=reuse_of(n))   # (n % 4 == 2: the re-used object's read + write stands in for the third cycle)
     # the full product of the header options, the topology rotating through all five
     for conv in range(4):
         for atm in range(3):
